@@ -152,139 +152,142 @@ def run(ck: Checker):
                      f'signature {hs}{hk} differs from the protocol\'s {ps}{pk}', construct=cons)
     ck.floor('C12.PROTO', 60)
 
-    # ---- ORDER ----
-    n_enum = 0
-    for modn in (TT, PF):
-        m = repo.mod(modn)
-        for node in ast.walk(m.tree):
-            if isinstance(node, ast.Call) and norm(node.func) == 'itertools.product':
-                n_enum += 1
-                first = node.args[0] if node.args else None
-                good = isinstance(first, ast.Tuple) and [norm(e) for e in first.elts] == ['False', 'True'] and len(node.args) == 1 and [k.arg for k in node.keywords] == ['repeat']
-                ck.check(good, 'C12.ORDER', m, node, 'assignments are enumerated in truth-table order', f'`{norm(node)}`', construct=f'{m.qualname_of(node)}: {norm(node)}')
-    ck.need(n_enum >= 10, f'only {n_enum} enumerations found in truth_table.py / python_function.py')
-    um = repo.mod(UTILS)
-    it = Interp(repo)
-    i2c = RepoFunc(it, um, um.func('input_to_canonical_index'))
-    c2i = RepoFunc(it, um, um.func('canonical_index_to_input'))
-    gbv = RepoFunc(it, um, um.func('get_bit_value'))
-    probs = []
-    for n in (1, 2, 3, 4):
-        for idx, xs in enumerate(itertools.product((False, True), repeat=n)):
-            try:
-                if i2c(list(xs)) != idx:
-                    probs.append(f'input_to_canonical_index{xs} = {i2c(list(xs))}, position in product order is {idx}')
-                if list(c2i(idx, n)) != list(xs):
-                    probs.append(f'canonical_index_to_input({idx}, {n}) = {c2i(idx, n)}, expected {list(xs)}')
-                for b in range(n):
-                    if gbv(idx, b, n) is not xs[b]:
-                        probs.append(f'get_bit_value({idx}, {b}, {n}) = {gbv(idx, b, n)}, input {b} of assignment {idx} is {xs[b]}')
-            except InterpRaise as e:
-                probs.append(f'raises {e.exc_name} at n={n}, idx={idx}')
-    ck.check(not probs, 'C12.ORDER', um, um.func('input_to_canonical_index'), 'index <-> input conversions and get_bit_value agree with the enumeration order (big-endian), exhaustively for 1..4 inputs',
-             '; '.join(probs[:3]), construct='core.utils conversions vs product order')
-    # modulo behaviour of canonical_index_to_input used by the int wrappers
-    probs = []
-    for n in (1, 2, 3):
-        for number in range(0, 2 ** (n + 2)):
-            got = list(c2i(number, n))
-            want = [bool((number >> (n - 1 - i)) & 1) for i in range(n)]
-            if got != want:
-                probs.append(f'canonical_index_to_input({number}, {n}) = {got}, low {n} bits big-endian are {want}')
-    ck.check(not probs, 'C12.ORDER', um, um.func('canonical_index_to_input'), 'a number is rendered as exactly its low `input_size` bits, most significant first',
-             '; '.join(probs[:3]), construct='canonical_index_to_input width')
-    pm = repo.mod(PF)
-    for name, nargs in (('PyFunction.from_int_unary_func', 1), ('PyFunction.from_int_binary_func', 2)):
-        f = pm.func(name)
-        inner = [n for n in ast.walk(f) if isinstance(n, ast.FunctionDef) and n is not f]
-        ck.need(len(inner) == 1, f'{pm.rel}: inner callable of {name} not found')
-        g = inner[0]
-        ifs = [s for s in g.body if isinstance(s, ast.If)]
-        tests = [norm(s.test) for s in ifs]
-        rev = [norm(x) for s in ifs for x in s.body]
-        want_rev = (['args = args[::-1]', 'result = result[::-1]'] if nargs == 1 else ['args1 = args1[::-1]', 'args2 = args2[::-1]', 'result = result[::-1]'])
-        order_ok = tests == ['not big_endian', 'not big_endian'] and rev == want_rev
-        src = norm(g)
-        call_ok = ('number = func(index)' in src and 'index = input_to_canonical_index(args)' in src) if nargs == 1 else \
-            ('number = func(index1, index2)' in src and 'index1 = input_to_canonical_index(args1)' in src and 'index2 = input_to_canonical_index(args2)' in src
-             and 'args1 = args[:input_int_len]' in src and 'args2 = args[input_int_len:]' in src)
-        ck.check(order_ok and call_ok and 'result = canonical_index_to_input(number, output_int_len)' in src, 'C12.ORDER', pm, g,
-                 f'{name}: operands and result are little-endian unless big_endian (reversed around the big-endian index conversion)',
-                 f'reversal tests {tests}, reversals {rev}', construct=f'{name} bit order')
-    ck.floor('C12.ORDER', 14)
+    # structural rules about enumeration order, loop-carried state, delegation and model completion: they speak where they recognise
+    # the code; the behaviour of whatever is written there is decided by the folds (C12.FOLD, C12.ITER) run after them
+    with ck.soft('C12.FOLD (every protocol query, model completion and the integer wrappers folded over small functions)'):
+        # ---- ORDER ----
+        n_enum = 0
+        for modn in (TT, PF):
+            m = repo.mod(modn)
+            for node in ast.walk(m.tree):
+                if isinstance(node, ast.Call) and norm(node.func) == 'itertools.product':
+                    n_enum += 1
+                    first = node.args[0] if node.args else None
+                    good = isinstance(first, ast.Tuple) and [norm(e) for e in first.elts] == ['False', 'True'] and len(node.args) == 1 and [k.arg for k in node.keywords] == ['repeat']
+                    ck.check(good, 'C12.ORDER', m, node, 'assignments are enumerated in truth-table order', f'`{norm(node)}`', construct=f'{m.qualname_of(node)}: {norm(node)}')
+        ck.need(n_enum >= 10, f'only {n_enum} enumerations found in truth_table.py / python_function.py')
+        um = repo.mod(UTILS)
+        it = Interp(repo)
+        i2c = RepoFunc(it, um, um.func('input_to_canonical_index'))
+        c2i = RepoFunc(it, um, um.func('canonical_index_to_input'))
+        gbv = RepoFunc(it, um, um.func('get_bit_value'))
+        probs = []
+        for n in (1, 2, 3, 4):
+            for idx, xs in enumerate(itertools.product((False, True), repeat=n)):
+                try:
+                    if i2c(list(xs)) != idx:
+                        probs.append(f'input_to_canonical_index{xs} = {i2c(list(xs))}, position in product order is {idx}')
+                    if list(c2i(idx, n)) != list(xs):
+                        probs.append(f'canonical_index_to_input({idx}, {n}) = {c2i(idx, n)}, expected {list(xs)}')
+                    for b in range(n):
+                        if gbv(idx, b, n) is not xs[b]:
+                            probs.append(f'get_bit_value({idx}, {b}, {n}) = {gbv(idx, b, n)}, input {b} of assignment {idx} is {xs[b]}')
+                except InterpRaise as e:
+                    probs.append(f'raises {e.exc_name} at n={n}, idx={idx}')
+        ck.check(not probs, 'C12.ORDER', um, um.func('input_to_canonical_index'), 'index <-> input conversions and get_bit_value agree with the enumeration order (big-endian), exhaustively for 1..4 inputs',
+                 '; '.join(probs[:3]), construct='core.utils conversions vs product order')
+        # modulo behaviour of canonical_index_to_input used by the int wrappers
+        probs = []
+        for n in (1, 2, 3):
+            for number in range(0, 2 ** (n + 2)):
+                got = list(c2i(number, n))
+                want = [bool((number >> (n - 1 - i)) & 1) for i in range(n)]
+                if got != want:
+                    probs.append(f'canonical_index_to_input({number}, {n}) = {got}, low {n} bits big-endian are {want}')
+        ck.check(not probs, 'C12.ORDER', um, um.func('canonical_index_to_input'), 'a number is rendered as exactly its low `input_size` bits, most significant first',
+                 '; '.join(probs[:3]), construct='canonical_index_to_input width')
+        pm = repo.mod(PF)
+        for name, nargs in (('PyFunction.from_int_unary_func', 1), ('PyFunction.from_int_binary_func', 2)):
+            f = pm.func(name)
+            inner = [n for n in ast.walk(f) if isinstance(n, ast.FunctionDef) and n is not f]
+            ck.need(len(inner) == 1, f'{pm.rel}: inner callable of {name} not found')
+            g = inner[0]
+            ifs = [s for s in g.body if isinstance(s, ast.If)]
+            tests = [norm(s.test) for s in ifs]
+            rev = [norm(x) for s in ifs for x in s.body]
+            want_rev = (['args = args[::-1]', 'result = result[::-1]'] if nargs == 1 else ['args1 = args1[::-1]', 'args2 = args2[::-1]', 'result = result[::-1]'])
+            order_ok = tests == ['not big_endian', 'not big_endian'] and rev == want_rev
+            src = norm(g)
+            call_ok = ('number = func(index)' in src and 'index = input_to_canonical_index(args)' in src) if nargs == 1 else \
+                ('number = func(index1, index2)' in src and 'index1 = input_to_canonical_index(args1)' in src and 'index2 = input_to_canonical_index(args2)' in src
+                 and 'args1 = args[:input_int_len]' in src and 'args2 = args[input_int_len:]' in src)
+            ck.check(order_ok and call_ok and 'result = canonical_index_to_input(number, output_int_len)' in src, 'C12.ORDER', pm, g,
+                     f'{name}: operands and result are little-endian unless big_endian (reversed around the big-endian index conversion)',
+                     f'reversal tests {tests}, reversals {rev}', construct=f'{name} bit order')
+        ck.floor('C12.ORDER', 14)
 
-    # ---- CARRY / DELEG ----
-    for modn, cname in IMPLS:
-        m = repo.mod(modn)
-        have = _methods(m, cname)
-        for name in ('is_monotone', 'is_monotone_at'):
-            fn = have.get(name)
-            if fn is None:
-                continue
-            cons = f'{cname}.{name}'
-            loops = [n for n in walk_no_nested(fn) if isinstance(n, ast.For) and not isinstance(m.parents.get(n), ast.For)]
-            loops = [l for l in loops if not any(isinstance(p, ast.For) for p in _ancestors(m, l, fn))]
-            if not loops:
-                # delegation: all(self.is_monotone_at(i, inverse=inverse) for i in range(self.output_size))
-                body = body_without_doc(fn)
-                ok = len(body) == 1 and isinstance(body[0], ast.Return) and isinstance(body[0].value, ast.Call) and norm(body[0].value.func) == 'all'
-                if ok:
-                    gen = body[0].value.args[0]
-                    ok = isinstance(gen, (ast.GeneratorExp, ast.ListComp)) and len(gen.generators) == 1 and norm(gen.generators[0].iter) == 'range(self.output_size)' \
-                        and not gen.generators[0].ifs and isinstance(gen.elt, ast.Call) and norm(gen.elt.func) == f'self.{name}_at' \
-                        and norm(gen.elt.args[0]) == norm(gen.generators[0].target) and all(k.arg == norm(k.value) for k in gen.elt.keywords) \
-                        and {k.arg for k in gen.elt.keywords} | {norm(a) for a in gen.elt.args[1:]} >= {p.arg for p in fn.args.args[1:]}
-                ck.check(ok, 'C12.DELEG', m, fn, f'{cons} = all({name}_at(i, ...) for every output), passing its options on', f'body `{norm(body[0])[:160] if body else None}`', construct=cons)
-                continue
-            exposed = set()
-            for l in loops:
-                exposed |= upward_exposed_carried(l)
-            guards = [g for l in loops for g in guards_of_return_false(m, fn, l)]
-            ck.need(guards, f'{m.rel}: {cons} has a loop but no `return False` inside it (shape changed)')
-            for ret, names in guards:
-                ck.check(bool(names & exposed), 'C12.CARRY', m, ret, f'{cons}: the failing test depends on state carried from earlier assignments of the enumeration',
-                         f'the tests guarding this `return False` read only {sorted(names)}; none of them is written in the loop and read before being rewritten '
-                         f'(loop-carried: {sorted(exposed)}): the decision at step k depends on (value_k, loop-invariant) only, which cannot express monotonicity of a sequence',
-                         construct=f'{cons}: return False guard')
-        for name in ('is_constant',):
-            fn = have.get(name)
-            if fn is not None and not [n for n in walk_no_nested(fn) if isinstance(n, ast.For)]:
-                body = body_without_doc(fn)
-                ok = len(body) == 1 and isinstance(body[0], ast.Return) and isinstance(body[0].value, ast.Call) and norm(body[0].value.func) == 'all' and len(body[0].value.args) == 1 \
-                    and isinstance(body[0].value.args[0], (ast.GeneratorExp, ast.ListComp)) and len(body[0].value.args[0].generators) == 1 \
-                    and norm(body[0].value.args[0].generators[0].iter) == 'range(self.output_size)' and not body[0].value.args[0].generators[0].ifs \
-                    and norm(body[0].value.args[0].elt) == f'self.is_constant_at({norm(body[0].value.args[0].generators[0].target)})'
-                ck.check(ok, 'C12.DELEG', m, fn, f'{cname}.{name} = all(is_constant_at(i) for every output)', f'body `{norm(body[0])[:160] if body else None}`', construct=f'{cname}.{name}')
-    ck.floor('C12.CARRY', 4)
-    ck.floor('C12.DELEG', 2)
+        # ---- CARRY / DELEG ----
+        for modn, cname in IMPLS:
+            m = repo.mod(modn)
+            have = _methods(m, cname)
+            for name in ('is_monotone', 'is_monotone_at'):
+                fn = have.get(name)
+                if fn is None:
+                    continue
+                cons = f'{cname}.{name}'
+                loops = [n for n in walk_no_nested(fn) if isinstance(n, ast.For) and not isinstance(m.parents.get(n), ast.For)]
+                loops = [l for l in loops if not any(isinstance(p, ast.For) for p in _ancestors(m, l, fn))]
+                if not loops:
+                    # delegation: all(self.is_monotone_at(i, inverse=inverse) for i in range(self.output_size))
+                    body = body_without_doc(fn)
+                    ok = len(body) == 1 and isinstance(body[0], ast.Return) and isinstance(body[0].value, ast.Call) and norm(body[0].value.func) == 'all'
+                    if ok:
+                        gen = body[0].value.args[0]
+                        ok = isinstance(gen, (ast.GeneratorExp, ast.ListComp)) and len(gen.generators) == 1 and norm(gen.generators[0].iter) == 'range(self.output_size)' \
+                            and not gen.generators[0].ifs and isinstance(gen.elt, ast.Call) and norm(gen.elt.func) == f'self.{name}_at' \
+                            and norm(gen.elt.args[0]) == norm(gen.generators[0].target) and all(k.arg == norm(k.value) for k in gen.elt.keywords) \
+                            and {k.arg for k in gen.elt.keywords} | {norm(a) for a in gen.elt.args[1:]} >= {p.arg for p in fn.args.args[1:]}
+                    ck.check(ok, 'C12.DELEG', m, fn, f'{cons} = all({name}_at(i, ...) for every output), passing its options on', f'body `{norm(body[0])[:160] if body else None}`', construct=cons)
+                    continue
+                exposed = set()
+                for l in loops:
+                    exposed |= upward_exposed_carried(l)
+                guards = [g for l in loops for g in guards_of_return_false(m, fn, l)]
+                ck.need(guards, f'{m.rel}: {cons} has a loop but no `return False` inside it (shape changed)')
+                for ret, names in guards:
+                    ck.check(bool(names & exposed), 'C12.CARRY', m, ret, f'{cons}: the failing test depends on state carried from earlier assignments of the enumeration',
+                             f'the tests guarding this `return False` read only {sorted(names)}; none of them is written in the loop and read before being rewritten '
+                             f'(loop-carried: {sorted(exposed)}): the decision at step k depends on (value_k, loop-invariant) only, which cannot express monotonicity of a sequence',
+                             construct=f'{cons}: return False guard')
+            for name in ('is_constant',):
+                fn = have.get(name)
+                if fn is not None and not [n for n in walk_no_nested(fn) if isinstance(n, ast.For)]:
+                    body = body_without_doc(fn)
+                    ok = len(body) == 1 and isinstance(body[0], ast.Return) and isinstance(body[0].value, ast.Call) and norm(body[0].value.func) == 'all' and len(body[0].value.args) == 1 \
+                        and isinstance(body[0].value.args[0], (ast.GeneratorExp, ast.ListComp)) and len(body[0].value.args[0].generators) == 1 \
+                        and norm(body[0].value.args[0].generators[0].iter) == 'range(self.output_size)' and not body[0].value.args[0].generators[0].ifs \
+                        and norm(body[0].value.args[0].elt) == f'self.is_constant_at({norm(body[0].value.args[0].generators[0].target)})'
+                    ck.check(ok, 'C12.DELEG', m, fn, f'{cname}.{name} = all(is_constant_at(i) for every output)', f'body `{norm(body[0])[:160] if body else None}`', construct=f'{cname}.{name}')
+        ck.floor('C12.CARRY', 4)
+        ck.floor('C12.DELEG', 2)
 
-    # ---- DEFINE ----
-    tm = repo.mod(TT)
-    d = tm.func('TruthTableModel.define')
-    src = norm(d)
-    p = d.args.args[1].arg
-    ok = '_table_cp = copy.deepcopy(self._table)' in src and f'for (input_value, output_idx), output_value in {p}.items():' in src \
-        and '_table_cp[output_idx][input_to_canonical_index(input_value)] = output_value' in src and 'return TruthTable(table=tp.cast(RawTruthTable, _table_cp))' in src
-    ck.check(ok, 'C12.DEFINE', tm, d, 'TruthTableModel.define writes each definition at [output][canonical index of the input] of a deep copy', 'shape changed', construct='TruthTableModel.define')
-    d = pm.func('PyFunctionModel.define')
-    inner = [n for n in ast.walk(d) if isinstance(n, ast.FunctionDef) and n is not d]
-    ok = len(inner) == 1
-    if ok:
-        s = norm(inner[0])
-        ok = 'answer = list(_old_callable(args))' in s and 'if answer[idx] != DontCare: continue' in s.replace('\n', ' ').replace('    ', '') \
-            and f'answer[idx] = {d.args.args[1].arg}[args_tuple, idx]' in s and 'for idx in range(_output_size):' in s and 'args_tuple = tuple(args)' in s
-    ck.check(ok, 'C12.DEFINE', pm, d, 'PyFunctionModel.define keeps every defined output and takes exactly the DontCare ones from the definition, keyed by (input tuple, output index)', 'shape changed', construct='PyFunctionModel.define')
-    d = bf.func('Function.define')
-    body = body_without_doc(d)
-    ok = len(body) == 2 and isinstance(body[0], ast.If) and norm(body[0].test) == d.args.args[1].arg and isinstance(body[0].body[-1], ast.Raise) and norm(body[1]) == 'return self'
-    ck.check(ok, 'C12.DEFINE', bf, d, 'a complete function accepts only the empty definition and is its own completion', 'shape changed', construct='Function.define')
-    for name, want in (('Function.check', 'return self.evaluate(inputs=inputs)'), ('Function.check_at', 'return self.evaluate_at(inputs=inputs, output_index=output_index)'),
-                       ('Function.get_model_truth_table', 'return tp.cast(RawTruthTableModel, self.get_truth_table())')):
-        f = bf.func(name)
-        body = body_without_doc(f)
-        ck.check(len(body) == 1 and norm(body[0]) == want, 'C12.DEFINE', bf, f, f'{name} of a complete function is its evaluation', f'body `{norm(body[0]) if body else None}`', construct=name)
-    ck.floor('C12.DEFINE', 6)
-    ck.assume('that each predicate equals its mathematical definition is not decided')
+        # ---- DEFINE ----
+        tm = repo.mod(TT)
+        d = tm.func('TruthTableModel.define')
+        src = norm(d)
+        p = d.args.args[1].arg
+        ok = '_table_cp = copy.deepcopy(self._table)' in src and f'for (input_value, output_idx), output_value in {p}.items():' in src \
+            and '_table_cp[output_idx][input_to_canonical_index(input_value)] = output_value' in src and 'return TruthTable(table=tp.cast(RawTruthTable, _table_cp))' in src
+        ck.check(ok, 'C12.DEFINE', tm, d, 'TruthTableModel.define writes each definition at [output][canonical index of the input] of a deep copy', 'shape changed', construct='TruthTableModel.define')
+        d = pm.func('PyFunctionModel.define')
+        inner = [n for n in ast.walk(d) if isinstance(n, ast.FunctionDef) and n is not d]
+        ok = len(inner) == 1
+        if ok:
+            s = norm(inner[0])
+            ok = 'answer = list(_old_callable(args))' in s and 'if answer[idx] != DontCare: continue' in s.replace('\n', ' ').replace('    ', '') \
+                and f'answer[idx] = {d.args.args[1].arg}[args_tuple, idx]' in s and 'for idx in range(_output_size):' in s and 'args_tuple = tuple(args)' in s
+        ck.check(ok, 'C12.DEFINE', pm, d, 'PyFunctionModel.define keeps every defined output and takes exactly the DontCare ones from the definition, keyed by (input tuple, output index)', 'shape changed', construct='PyFunctionModel.define')
+        d = bf.func('Function.define')
+        body = body_without_doc(d)
+        ok = len(body) == 2 and isinstance(body[0], ast.If) and norm(body[0].test) == d.args.args[1].arg and isinstance(body[0].body[-1], ast.Raise) and norm(body[1]) == 'return self'
+        ck.check(ok, 'C12.DEFINE', bf, d, 'a complete function accepts only the empty definition and is its own completion', 'shape changed', construct='Function.define')
+        for name, want in (('Function.check', 'return self.evaluate(inputs=inputs)'), ('Function.check_at', 'return self.evaluate_at(inputs=inputs, output_index=output_index)'),
+                           ('Function.get_model_truth_table', 'return tp.cast(RawTruthTableModel, self.get_truth_table())')):
+            f = bf.func(name)
+            body = body_without_doc(f)
+            ck.check(len(body) == 1 and norm(body[0]) == want, 'C12.DEFINE', bf, f, f'{name} of a complete function is its evaluation', f'body `{norm(body[0]) if body else None}`', construct=name)
+        ck.floor('C12.DEFINE', 6)
+        ck.assume('that each predicate equals its mathematical definition is not decided')
 
 
 def _ancestors(m, node, stop):
@@ -376,6 +379,144 @@ def fold_iterator(ck: Checker, rule='C12.ITER'):
              '; '.join(probs[:3]), construct='input_iterator_with_fixed_sum enumeration')
     ck.floor(rule, 1)
     return sound
+
+
+def fold_models_and_wrappers(ck: Checker, rule='C12.FOLD'):
+    """Model completion (TruthTableModel.define / PyFunctionModel.define / check) and the integer wrappers folded over small
+    instances: the completed function agrees with the model wherever it was defined and with the definition elsewhere, the
+    model is left untouched; from_int_unary_func / from_int_binary_func honour the stated bit order."""
+    repo = ck.repo
+    from ..interp import RepoClass
+    from ..tables import U as _U
+    tm, pm = repo.mod(TT), repo.mod(PF)
+    lg = repo.mod('cirbo.core.logic')
+
+    class _DCv:
+        def __repr__(self):
+            return '*'
+    DCV = _DCv()
+    it = Interp(repo, overrides={'cirbo.core.logic.DontCare': DCV}, max_steps=3_000_000)
+    it.real_super = True
+    TTM = RepoClass(tm, tm.cls('TruthTableModel'))
+    PFM = RepoClass(pm, pm.cls('PyFunctionModel'))
+    probs_t, probs_p = [], []
+    vals = (False, True, DCV)
+    n_models = 0
+    for n, m in ((1, 1), (2, 1), (1, 2)):
+        for rows in itertools.product(itertools.product(vals, repeat=1 << n), repeat=m):
+            n_models += 1
+            table = [list(r) for r in rows]
+            holes = [(j, t) for j in range(m) for t in range(1 << n) if table[j][t] is DCV]
+            for fill in ((False,) * len(holes), (True,) * len(holes), tuple(k % 2 == 0 for k in range(len(holes)))):
+                definition = {}
+                for (j, t), v in zip(holes, fill):
+                    xs = tuple(bool((t >> (n - 1 - i)) & 1) for i in range(n))
+                    definition[(xs, j)] = v
+                if fill and fill[0] is True:
+                    # an over-complete definition: it also mentions defined positions, with the opposite value
+                    for j in range(m):
+                        for t in range(1 << n):
+                            if table[j][t] is not DCV:
+                                definition[(tuple(bool((t >> (n - 1 - i)) & 1) for i in range(n)), j)] = not table[j][t]
+                want = [[(definition[(tuple(bool((t >> (n - 1 - i)) & 1) for i in range(n)), j)] if table[j][t] is DCV else table[j][t]) for t in range(1 << n)] for j in range(m)]
+                # truth-table model
+                it.steps = 0
+                try:
+                    mdl = it.instantiate(TTM, ([list(r) for r in table],))
+                    before = [list(r) for r in mdl._d['_table']]
+                    f = it.getattr(tm, None, mdl, 'define')(dict(definition))
+                    got = [list(r) for r in it.getattr(tm, None, f, 'get_truth_table')()]
+                    if got != want:
+                        probs_t.append(f'model {table} completed with {definition}: {got}, expected {want}')
+                    if [list(r) for r in mdl._d['_table']] != before:
+                        probs_t.append(f'model {table}: define modified the model itself')
+                except InterpRaise as e:
+                    probs_t.append(f'model {table}: raises {e.exc_name}')
+                # python-callable model: a callable returning the model rows
+                def mk(tb):
+                    # the user's callable hands out rows it keeps (a cached result): completing the model must not write into them
+                    keep = {t: [tb[j][t] for j in range(len(tb))] for t in range(len(tb[0]))}
+                    f_ = lambda xs: keep[int(''.join(str(int(bool(v))) for v in xs), 2)]  # noqa: E731
+                    f_.keep = keep
+                    return f_
+                it.steps = 0
+                try:
+                    pmdl = it.instantiate(PFM, (mk(table),), {'input_size': n, 'output_size': m}) if 'output_size' in [a.arg for a in pm.func('PyFunctionModel.__init__').args.args + pm.func('PyFunctionModel.__init__').args.kwonlyargs] else it.instantiate(PFM, (mk(table),), {'input_size': n})
+                    f = it.getattr(pm, None, pmdl, 'define')(dict(definition))
+                    got = [[list(it.getattr(pm, None, f, 'evaluate')([bool((t >> (n - 1 - i)) & 1) for i in range(n)]))[j] for t in range(1 << n)] for j in range(m)]
+                    if got != want:
+                        probs_p.append(f'model {table} completed with {definition}: {got}, expected {want}')
+                    kept = pmdl._d['_func'].keep if hasattr(pmdl._d.get('_func'), 'keep') else None
+                    if kept is not None and any(kept[t][j] is not table[j][t] for j in range(m) for t in range(1 << n)):
+                        probs_p.append(f'model {table}: evaluating the completed function wrote into the rows returned by the model\'s own callable (the model is no longer the one that was given)')
+                except InterpRaise as e:
+                    probs_p.append(f'model {table}: raises {e.exc_name}')
+            if len(probs_t) > 3 or len(probs_p) > 3:
+                break
+    ck.check(not probs_t, rule, tm, tm.func('TruthTableModel.define'), f'TruthTableModel.define: the completed table keeps every defined entry and takes exactly the DontCare ones from the definition; the model is untouched ({n_models} models x 3 definitions)',
+             '; '.join(probs_t[:2]), construct='TruthTableModel.define over small models')
+    ck.check(not probs_p, rule, pm, pm.func('PyFunctionModel.define'), f'PyFunctionModel.define: the completed callable keeps every defined output and takes exactly the DontCare ones from the definition ({n_models} models x 3 definitions)',
+             '; '.join(probs_p[:2]), construct='PyFunctionModel.define over small models')
+    # a completely defined function: define() returns it for an empty definition and refuses any other
+    TTc2 = RepoClass(tm, tm.cls('TruthTable'))
+    bm = repo.mod('cirbo.core.boolean_function')
+    probs = []
+    try:
+        f0 = it.instantiate(TTc2, ([[False, True]],))
+        same = it.getattr(tm, None, f0, 'define')({})
+        if same is not f0 and [list(r) for r in it.getattr(tm, None, same, 'get_truth_table')()] != [[False, True]]:
+            probs.append('define({}) of a defined function returns another function')
+        try:
+            it.getattr(tm, None, f0, 'define')({((False,), 0): True})
+            probs.append('a non-empty definition of a completely defined function is accepted silently')
+        except InterpRaise as e:
+            if e.exc_name != 'BadDefinitionError':
+                probs.append(f'a non-empty definition of a defined function raises {e.exc_name}')
+    except InterpRaise as e:
+        probs.append(f'Function.define raises {e.exc_name}')
+    ck.check(not probs, rule, bm, bm.func('Function.define'), 'a completely defined function returns itself for an empty definition and refuses a non-empty one with BadDefinitionError', '; '.join(probs), construct='Function.define on a defined function')
+    # integer wrappers
+    PFc = it.global_value(pm, 'PyFunction')
+    probs = []
+    for be in (False, True):
+        for n_in, n_out, fn_, nm in ((2, 3, lambda x: (3 * x + 1) % 8, '3x+1 mod 8'), (3, 2, lambda x: x // 2, 'x // 2')):
+            it.steps = 0
+            try:
+                f = it.getattr(pm, None, PFc, 'from_int_unary_func')(fn_, n_in, n_out, be)
+                for x in range(1 << n_in):
+                    bits = [bool((x >> k) & 1) for k in range(n_in)]
+                    if be:
+                        bits.reverse()
+                    out = list(it.getattr(pm, None, f, 'evaluate')(bits))
+                    if be:
+                        out = out[::-1]
+                    got = sum(int(bool(b)) << k for k, b in enumerate(out))
+                    if got != fn_(x) or len(out) != n_out:
+                        probs.append(f'from_int_unary_func({nm}, {n_in}, {n_out}, big_endian={be}) maps {x} to {got} on {len(out)} bits')
+                        break
+            except InterpRaise as e:
+                probs.append(f'from_int_unary_func(big_endian={be}) raises {e.exc_name}')
+        it.steps = 0
+        try:
+            f = it.getattr(pm, None, PFc, 'from_int_binary_func')(lambda x, y: 4 * x + y, 2, 4, be)
+            for x in range(4):
+                for y in range(4):
+                    bx = [bool((x >> k) & 1) for k in range(2)]
+                    by = [bool((y >> k) & 1) for k in range(2)]
+                    if be:
+                        bx.reverse()
+                        by.reverse()
+                    out = list(it.getattr(pm, None, f, 'evaluate')(bx + by))
+                    if be:
+                        out = out[::-1]
+                    got = sum(int(bool(b)) << k for k, b in enumerate(out))
+                    if got != 4 * x + y:
+                        probs.append(f'from_int_binary_func(4x+y, big_endian={be}) maps ({x}, {y}) to {got}')
+                        break
+        except InterpRaise as e:
+            probs.append(f'from_int_binary_func(big_endian={be}) raises {e.exc_name}')
+    ck.check(not probs, rule, pm, pm.func('PyFunction.from_int_unary_func'), 'the integer wrappers read operands and write the result in the stated bit order (both endiannesses, non-commutative binary function)',
+             '; '.join(probs[:2]), construct='PyFunction.from_int_*_func bit order')
 
 
 def fold_predicates(ck: Checker, rule='C12.FOLD', real_iterator=True):
@@ -525,3 +666,4 @@ def run(ck: Checker):  # noqa: F811
     ck.rule('C12.FOLD', 'every query of the function protocol, in all three representations, folded over all small Boolean functions and compared with its mathematical definition (and thereby with the sibling representations)')
     ck.rule('C12.ITER', 'input_iterator_with_fixed_sum folded as a generator run to completion: every assignment of the requested weight (xor the negation mask) exactly once and each yielded list a fresh object, so a callable that returns or keeps its argument cannot be compared with itself')
     fold_predicates(ck, real_iterator=fold_iterator(ck))
+    fold_models_and_wrappers(ck)
